@@ -745,6 +745,7 @@ class StmtMixin:
         def prelude(p):
             pi = fresh("pi", IntS)
             p.assume(pi >= 0)
+            p.spec_env = dict(p.spec_env, **{lp.index or f"$i{node.lineno}": vint(pi)})
             for a in self.assign(p, node.target, seq["get"](p, pi), node):
                 pass
 
@@ -804,8 +805,7 @@ class StmtMixin:
             return self.keys_view(st, it, node)
         if k == "str":
             sid = V.s(it.z)
-            ch = z3.Function("str_char", IntS, IntS)
-            from .sym import sat
+            from .sym import sat, str_char as ch
 
             def get(s, i):
                 c = ch(sat(sid, i))
